@@ -26,14 +26,15 @@ ASSUMPTIONS = ['a coroutine given to create_task that ends by cancellation, and 
                'an exception raised by a _schedule_rpc callback may arrive wrapped, as long as it chains to the original',
                'thread-mode cases that hit their watchdog are inconclusive, never violations']
 REQUIRED = ['adapter/convert_plain', 'foreign_loop_futures', 'adapter/comm_thread', 'injected_delays', 'adapter/unwrap', 'adapter/plum2kiwi', 'adapter/create_task', 'adapter/schedule_rpc', 'outcome/value', 'outcome/exception', 'outcome/cancel',
-            'depth/2', 'depth/3', 'inner_first', 'outer_first', 'thread_mode', 'action_cases', 'callbacks_counted']
+            'depth/2', 'depth/3', 'inner_first', 'outer_first', 'thread_mode', 'action_cases', 'callbacks_counted', 'mirrors_of_one_future', 'exception_objects_as_values']
 EXHAUSTIVE = {'quick': False, 'thorough': False}
 BOUNDS = {'quick': 'depth<=3 exhaustive orders, depth 4 sampled (200), thread mode 120 cases', 'thorough': 'depth 4 all orders, thread mode 2000 cases'}
 # ('ISE:...': the failure is an asyncio.InvalidStateError -- e.g. the scheduled code asked a future for a result it does not have yet --
 # an exception like any other as far as the adapters are concerned)
 # ('KCE:...': the failure is an *instance* of the communicator library's CancelledError handed over as an exception -- a failure that
 # says "something else was cancelled" --, which is not the same as the future having been cancelled)
-OUTCOMES = [['value', 42], ['value', None], ['value', 0], ['exc', 'boom'], ['cancel'], ['exc', 'ISE:not-ready'], ['exc', 'KCE:inner-cancelled']]
+OUTCOMES = [['value', 42], ['value', None], ['value', 0], ['exc', 'boom'], ['cancel'], ['exc', 'ISE:not-ready'], ['exc', 'KCE:inner-cancelled'],
+            ['value', '@EXC']]  # ('@EXC': a value that happens to be an exception object, e.g. what Process.exception() hands back -- a result, not a failure)
 
 
 class AdapterError(Exception):
@@ -42,6 +43,10 @@ class AdapterError(Exception):
 
     def __hash__(self):
         return hash(self.args)
+
+
+def _val(v):
+    return AdapterError('handed back as a value') if v == '@EXC' else v
 
 
 def _exc_for(tag):
@@ -61,6 +66,12 @@ def gen_cases(tier, seed):
             for order in orders:
                 for oc in OUTCOMES:
                     cases.append({'adapter': adapter, 'depth': depth, 'order': list(order), 'outcome': oc, 'thread': False})
+    # one loop future mirrored for two senders; one of them gives up (cancels its mirror) before / after the loop future ends: the other
+    # still gets the outcome
+    for oc in OUTCOMES:
+        for when in ('before', 'after'):
+            for which in (0, 1):
+                cases.append({'adapter': 'plum2kiwi-twice', 'depth': 1, 'order': [0], 'outcome': oc, 'thread': False, 'gives_up': which, 'when': when})
     nthread = 120 if tier == 'quick' else 2000
     for _ in range(nthread):
         depth = rng.randint(1, 4)
@@ -113,7 +124,7 @@ def _describe(fut):
 
 def _expected(oc):
     if oc[0] == 'value':
-        return ['result', oc[1]]
+        return ['result', _val(oc[1])]
     if oc[0] == 'exc':
         return ['exception', _exc_for(oc[1])]
     return ['cancelled']
@@ -124,7 +135,7 @@ def _complete(fut, what, nxt):
     if what == 'link':
         fut.set_result(nxt)
     elif what[0] == 'value':
-        fut.set_result(what[1])
+        fut.set_result(_val(what[1]))
     elif what[0] == 'exc':
         fut.set_exception(_exc_for(what[1]))
     else:
@@ -145,7 +156,7 @@ def run_comm_thread(case):
     async def handler(_comm, msg):
         if oc[0] == 'exc':
             raise _exc_for(oc[1])
-        return oc[1]
+        return _val(oc[1])
 
     conv = communications.convert_to_comm(handler, loop)
     delay_at = case.get('delay_at')
@@ -157,7 +168,7 @@ def run_comm_thread(case):
         def callback():
             if oc[0] == 'exc':
                 raise _exc_for(oc[1])
-            return oc[1]
+            return _val(oc[1])
 
         conv = lambda _comm, _msg: proc._schedule_rpc(callback)  # noqa: E731
     # the sender waits until the loop thread is really blocked in its selector
@@ -223,6 +234,7 @@ def run_case(case):
     adapter, depth, order, oc, thread = case['adapter'], case['depth'], case['order'], case['outcome'], case['thread']
     obs = {'adapter': {adapter: 1}, 'outcome': {('cancel' if oc[0] == 'cancel' else ('exception' if oc[0] == 'exc' else 'value')): 1},
            'depth': {str(depth): 1}, 'inner_first': 0, 'outer_first': 0, 'thread_mode': int(thread), 'action_cases': 0, 'callbacks_counted': 0}
+    obs['exception_objects_as_values'] = int(oc == ['value', '@EXC'])
     if depth >= 2:
         if order.index(depth - 1) < order.index(0):
             obs['inner_first'] = 1
@@ -247,6 +259,17 @@ def run_case(case):
             out.add_done_callback(lambda f: calls.append(1))
             steps = [lambda i=i: _complete(levels[i], 'link' if i < depth - 1 else oc, levels[i + 1] if i < depth - 1 else None) for i in order]
             _drive(loop, steps, thread, lambda: out.done(), on_loop=True)
+        elif adapter == 'plum2kiwi-twice':
+            level = loop.create_future()
+            mirrors = [communications.plum_to_kiwi_future(level), communications.plum_to_kiwi_future(level)]
+            out = mirrors[1 - case['gives_up']]
+            out.add_done_callback(lambda f: calls.append(1))
+            if case['when'] == 'before':
+                mirrors[case['gives_up']].cancel()
+            _drive(loop, [lambda: _complete(level, oc, None)], False, lambda: out.done(), on_loop=True)
+            if case['when'] == 'after':
+                mirrors[case['gives_up']].cancel()
+            obs['mirrors_of_one_future'] = 1
         elif adapter == 'create_task':
             async def coro():
                 for _ in range(case.get('yields', 0)):
@@ -258,7 +281,7 @@ def run_case(case):
                     inner = loop.create_future()
                     inner.cancel()
                     await inner
-                return oc[1]
+                return _val(oc[1])
 
             factory = coro
             if case.get('factory') == 'raises':
@@ -320,7 +343,7 @@ def run_case(case):
                 if depth == 0:
                     if oc[0] == 'exc':
                         raise _exc_for(oc[1])
-                    return oc[1]
+                    return _val(oc[1])
                 return levels[0]
 
             holder = {}
